@@ -7,6 +7,7 @@ import CV.Proofs.InvTasksOnce
 import CV.Proofs.InvTasksWait
 import CV.Proofs.InvTasksRange
 import CV.Proofs.InvTasksOwn2
+import CV.Proofs.ValueTree
 /-
 C04 - value layer.  `Val.set` is the function the machine calls for every non-None handler
 result (`setValue` in CV.Model.Core.Machine); these theorems say that whatever sequence of
@@ -569,5 +570,198 @@ theorem eventDone_once_witness :
 
 /-- non-vacuity of `T46Pass` -/
 example : T46Pass { st := {}, stack := [.eventDone 0 0 false] } 0 := ⟨0, false, [], rfl, rfl, rfl⟩
+
+end CV.C04
+
+
+/-!
+## Nested Values (a handler that returns `self.fire(e)`): the value layer `CV.VT` (`CV/Model/ValueTree.lean`)
+
+`circuits/core/values.py` as a store of cells; `setValue` with its `Value` branch, the walk of `update` up the parent
+chain, `getValue(recursive)`, `inform`.  The statements hold for every store (every forest - or non-forest - of cells, every
+setting of the flags) and every finite session of operations; the machine of the sections above does not contain
+nested values (its programs return atoms), this layer is tied to the code by its own correspondence (`harness/c04_values.py`).
+-/
+namespace CV.C04
+open CV.VT
+
+/-- whatever else happens in the session (sets on other cells, flag writes, informs, new cells): what a cell holds is, apart
+    from `None` entries, exactly what it held before followed by the non-None results set on it, in order - a nested Value
+    stands in the sequence as itself (`Arg.ref`), nothing is dropped or replaced (before fix d96e696 a result arriving after a
+    still unresolved nested Value replaced it) -/
+theorem resolved_value_exact (s : St) (ops : List Op) (c : Nat) :
+    nn (items ((runOps s ops).cells c).value) = nn (items (s.cells c).value) ++ nn (setsOn c ops) := runOps_nn ops s c
+
+/-- from the initial store: exactly the non-None results set on the cell -/
+theorem resolved_value_exact_init (ops : List Op) (c : Nat) :
+    nn (items ((runOps {} ops).cells c).value) = nn (setsOn c ops) := by
+  rw [resolved_value_exact]; rfl
+
+/-- `getValue(True)`: a cell holding a single nested Value resolves to what that Value resolves to … -/
+theorem resolved_nested (s : St) (c d : Nat) (r : Stored) (h : (s.cells c).value = .one (.ref d))
+    (hr : getValue s c true = some r) : getValue s d true = some r := by
+  simp only [getValue, if_true, h, getRec] at hr ⊢
+  exact getRec_mono _ _ _ _ hr
+
+example : getValue (runOps {} [.new .off .off true, .new .off .off true, .set 0 (.ref 1), .set 1 (.lit 5)]) 0 true
+    = some (.one (.lit 5)) := by decide
+
+/-- … and any other content (nothing, an atom, a list) is returned as it is -/
+theorem resolved_plain (s : St) (c : Nat) (h : ∀ d, (s.cells c).value ≠ .one (.ref d)) :
+    getValue s c true = some (s.cells c).value := by
+  simp only [getValue, if_true]
+  cases hv : (s.cells c).value with
+  | many l => rfl
+  | one a =>
+    cases a with
+    | none => rfl
+    | lit n => rfl
+    | ref d => exact (h d hv).elim
+
+example : ∀ d, (({} : St).cells 0).value ≠ .one (.ref d) := by intro d h; cases h
+
+/-- the first result of a cell that holds nothing is stored as such … -/
+theorem single_first (s : St) (c : Nat) (a : Arg) (h : held (s.cells c) = false) :
+    ((setValue s c a).cells c).value = .one a := by
+  rw [setValue_value, if_pos rfl]; exact storeArg_fresh _ _ h
+
+example : held (({} : St).cells 0) = false := by decide
+
+/-- … and from then on, through every session: it stays alone as long as nothing else is set on the cell, and becomes the
+    Python list of everything set, in order, as soon as something is -/
+theorem single_vs_list (s : St) (ops : List Op) (c : Nat) (h : (s.cells c).value ≠ .one .none) :
+    ((runOps s ops).cells c).value =
+      if setsOn c ops = [] then (s.cells c).value else .many (items (s.cells c).value ++ setsOn c ops) :=
+  runOps_items ops s c h
+
+/-- both together: a first non-None result `a` and then a session -/
+theorem single_vs_list_fresh (s : St) (c : Nat) (a : Arg) (ops : List Op) (h : held (s.cells c) = false) (ha : a ≠ .none) :
+    ((runOps (setValue s c a) ops).cells c).value = if setsOn c ops = [] then .one a else .many (a :: setsOn c ops) := by
+  have h1 := single_first s c a h
+  rw [single_vs_list _ _ _ (by rw [h1]; intro e; cases e; exact ha rfl), h1]; rfl
+
+example : ((runOps (setValue {} 0 (.lit 1)) [.set 0 (.lit 2), .set 1 (.lit 9), .set 0 (.ref 1)]).cells 0).value
+    = .many [.lit 1, .lit 2, .ref 1] := by decide
+
+/-- `setValue` never takes a flag back (before fix d96e696 storing a nested Value copied its flags over the holder's:
+    `[raise, return self.fire(e)]` ended with errors = False) -/
+theorem flags_monotone (s : St) (c : Nat) (a : Arg) (j : Nat) :
+    ((s.cells j).errors = true → ((setValue s c a).cells j).errors = true) ∧
+    ((s.cells j).result = true → ((setValue s c a).cells j).result = true) := setValue_flags_mono s c a j
+
+/-- errors travel upwards at every `setValue` that returns: an error known on the cell set, or on the Value being nested into
+    it, is afterwards known on the cell and on every ancestor of it -/
+theorem errors_propagate (s : St) (c : Nat) (a : Arg) (q : Nat) (hq : Anc (setValue s c a) c q)
+    (hc : (setValue s c a).crashed = false)
+    (he : (s.cells c).errors = true ∨ ∃ d, a = .ref d ∧ (s.cells d).errors = true) :
+    ((setValue s c a).cells q).errors = true := by
+  unfold setValue at hq hc ⊢
+  refine update_anc_errors _ _ _ _ _ (hq.congr (fun j => (update_parent ..).symm)) hc ?_
+  rcases he with he | ⟨d, rfl, he⟩
+  · refine (touch_rel flagsMono_step _ _ _ _).1 ?_
+    simp [setParent_errors, he]
+  · apply touch_ref_errors
+    simp only [upd_cells]; split <;> simp [setParent_errors, he]
+
+/-- non-vacuity, and the shape the manager produces: the nested event's handler raised (`errors = True`, then the error
+    triple is set): the holder and the holder's holder learn it -/
+example : let s := runOps {} [.new .off .off true, .new .off .off true, .new .off .off true, .set 0 (.ref 1), .set 1 (.ref 2),
+      .errors 2 true]
+    Anc (setValue s 2 (.lit 7)) 2 0 ∧ (setValue s 2 (.lit 7)).crashed = false ∧ ((setValue s 2 (.lit 7)).cells 0).errors = true := by
+  refine ⟨.step (by decide) (.step (by decide) ?_), by decide, by decide⟩
+  exact .refl _
+
+/-- … and no error is invented -/
+theorem errors_not_invented (s : St) (c : Nat) (a : Arg) (h : ∀ j, (s.cells j).errors = false) (j : Nat) :
+    ((setValue s c a).cells j).errors = false := by
+  unfold setValue
+  refine update_noErr _ _ _ _ ?_ j
+  intro i
+  simp only [upd_cells]; split <;> simp [setParent_errors, h]
+
+example : ∀ j, (({} : St).cells j).errors = false := fun _ => rfl
+
+/-- the naive reading "errors is set iff an error was set on the cell or on a cell nested under it" fails in one direction:
+    flags travel only inside `setValue`; an `errors = True` written on a nested Value after the nesting, with no later
+    `setValue` on it, is not seen by the holder (the manager always sets the error triple right after the flag) -/
+theorem errors_propagate_naive_witness :
+    let s := runOps {} [.new .off .off true, .new .off .off true, .set 0 (.ref 1), .errors 1 true]
+    (s.cells 1).errors = true ∧ (s.cells 1).parent = 0 ∧ (s.cells 0).errors = false := by decide
+
+/-- parent chains stay acyclic: storing an atom or None changes no parent; nesting a Value that is nobody's parent yet (a
+    value just returned by `fire`) under another cell keeps the chains acyclic -/
+theorem parent_chain_acyclic (s : St) (c : Nat) (a : Arg) (h : Acyclic s)
+    (hfresh : ∀ d, a = .ref d → d ≠ c ∧ ∀ j, j ≠ d → (s.cells j).parent ≠ d) : Acyclic (setValue s c a) := by
+  obtain ⟨rank, hr⟩ := h
+  cases a with
+  | none => exact ⟨rank, fun j hj => by rw [setValue_parent] at hj ⊢; simpa using hr j (by simpa using hj)⟩
+  | lit n => exact ⟨rank, fun j hj => by rw [setValue_parent] at hj ⊢; simpa using hr j (by simpa using hj)⟩
+  | ref d =>
+    obtain ⟨hdc, hf⟩ := hfresh d rfl
+    refine ⟨fun j => if j = d then rank c + 1 else rank j, fun j hj => ?_⟩
+    rw [setValue_parent] at hj ⊢
+    by_cases hjd : j = d
+    · subst hjd
+      have hcj : ¬ c = j := fun e => hdc e.symm
+      simp [hcj]
+    · have hne : ¬ (Arg.ref d = Arg.ref j) := by intro e; cases e; exact hjd rfl
+      rw [if_neg hne] at hj ⊢
+      have := hr j hj
+      have hpd : ¬ (s.cells j).parent = d := hf j hjd
+      simp [hjd, hpd, this]
+
+example : Acyclic ({} : St) := ⟨fun _ => 0, fun _ hj => (hj rfl).elim⟩
+example : ∀ d, Arg.ref 1 = .ref d → d ≠ 0 ∧ ∀ j, j ≠ d → (({} : St).cells j).parent ≠ d := by
+  intro d h; cases h; exact ⟨by decide, fun j hj => hj⟩
+
+/-- without the freshness condition a cycle can be made, and the next `setValue` on it does not return (RecursionError in
+    `update`; the model's `crashed`) -/
+theorem parent_chain_acyclic_witness :
+    let s := runOps {} [.new .off .off true, .new .off .off true, .set 0 (.ref 1)]
+    (s.cells 0).parent = 0 ∧ (s.cells 1).parent = 0 ∧ s.crashed = false ∧ (setValue s 1 (.ref 0)).crashed = true := by decide
+
+/-- one change, at most one notification per Value: on acyclic chains the notes fired by one `setValue` of an atom are
+    about pairwise different cells (the cell set and ancestors of it: `rank` does not increase) -/
+theorem notify_once_per_change (s : St) (c n : Nat) (rank : Nat → Nat)
+    (hr : ∀ j, (s.cells j).parent ≠ j → rank (s.cells j).parent < rank j) :
+    ∃ new : List Note, (setValue s c (.lit n)).log = new ++ s.log ∧ (∀ x ∈ new, rank x.cell ≤ rank c) ∧
+      (new.map Note.cell).Nodup := by
+  unfold setValue
+  exact update_log_lit rank n _ _ c (fun j hj => by
+    have hp : ∀ i, (((setParent s c (.lit n)).upd c (fun x => { x with value := storeArg x (.lit n) })).cells i).parent
+        = (s.cells i).parent := by
+      intro i; simp only [upd_cells, setParent]; split <;> rfl
+    rw [hp] at hj ⊢; exact hr j hj)
+
+example : ∀ j, ((({} : St).cells j).parent ≠ j → (fun _ : Nat => 0) (({} : St).cells j).parent < (fun _ : Nat => 0) j) :=
+  fun _ hj => (hj rfl).elim
+
+/-- … and at least once: a Value that is to notify (its event's or its own `notify` is True, it has a manager, it is not
+    a promise waiting for coroutine handlers) announces the result stored in it, before its ancestors announce theirs -/
+theorem notify_cell_itself (s : St) (c n : Nat) (hp : (s.cells c).promise = false) (hm : (s.cells c).hasMgr = true)
+    (hn : (s.cells c).evNotify.orElse (s.cells c).notify = .on) :
+    ∃ new : List Note, (setValue s c (.lit n)).log = new ++ .changed c :: s.log := by
+  unfold setValue
+  obtain ⟨new, h⟩ := update_succ_log s.n ((setParent s c (.lit n)).upd c (fun x => { x with value := storeArg x (.lit n) })) c (.lit n)
+  refine ⟨new, ?_⟩
+  rw [h]
+  congr 1
+  exact inform_on _ c (by simp [setParent, hp]) (by simp [setParent, hm]) (by simpa [setParent] using hn)
+
+example : ((newCell {} .on .off true).cells 0).evNotify.orElse ((newCell {} .on .off true).cells 0).notify = .on := by decide
+
+/-- storing `None` or a Value (no result yet known for sure) notifies nobody -/
+theorem notify_only_for_results (s : St) (c : Nat) (a : Arg) (h : ∀ n, a ≠ .lit n) : (setValue s c a).log = s.log := by
+  unfold setValue
+  rw [update_log_quiet _ _ _ _ h]
+  cases a <;> rfl
+
+example : ∀ n, Arg.ref 3 ≠ .lit n := by intro n h; cases h
+
+/-- the notifications of a result arriving in a nested Value, concretely: the nested Value's own event and the holder's
+    event are notified once each, innermost first (log is newest first) -/
+theorem notify_chain_witness :
+    let s := runOps {} [.new .on .off true, .new .off .on true, .set 0 (.ref 1)]
+    s.log = [] ∧ (setValue s 1 (.lit 5)).log = [.changed 0, .changed 1] := by decide
 
 end CV.C04
